@@ -47,6 +47,20 @@ func (in *Interp) initAll() {
 		for _, pkg := range in.cfg.StdInitPkgs {
 			in.runInit(pkg)
 		}
+		// package os is not initialised (its init touches the real process state); its error sentinels are
+		// aliases of io/fs's and are copied over
+		if osPkg, fsPkg := in.prog.ImportedPackage("os"), in.prog.ImportedPackage("io/fs"); osPkg != nil && fsPkg != nil {
+			for _, n := range []string{"ErrInvalid", "ErrPermission", "ErrExist", "ErrNotExist", "ErrClosed"} {
+				og, ok1 := osPkg.Members[n].(*ssa.Global)
+				fg, ok2 := fsPkg.Members[n].(*ssa.Global)
+				if ok1 && ok2 {
+					if cell, ok := in.globals[fg]; ok {
+						v := *cell
+						in.globals[og] = &v
+					}
+				}
+			}
+		}
 		in.stdInit = true
 	}
 	for _, pkg := range in.cfg.RepoPkgs {
